@@ -96,6 +96,16 @@ def add_rules(rep, prog):
     st = stores[0]
     edges = None
     pos = None
+    # g[fro, to] with (fro, to) = pair is g[pair]
+    def pairfold(t):
+        if not isinstance(t, tuple):
+            return t
+        if t and t[0] == "tuple" and len(t) == 2 and len(t[1]) == 2 and all(isinstance(x, tuple) and x and x[0] == "sub" for x in t[1]) and \
+                t[1][0][1] == t[1][1][1] and is_const(t[1][0][2], 0) and is_const(t[1][1][2], 1):
+            return pairfold(t[1][0][1])
+        return tuple(pairfold(x) for x in t)
+    st.idx = pairfold(st.idx)
+    li["next"] = {k: pairfold(v) for k, v in li["next"].items()}
     if is_for and st.idx == ("elem", li["iter"]):
         edges = li["iter"]
     elif not is_for and st.idx[0] == "sub" and st.idx[2][0] == "mu" and st.idx[2][2] in counters:
